@@ -156,6 +156,7 @@ def run(ctx):
     check_primitive_puts(ctx)
     check_joined_words(ctx)
     check_elif_needs_if(ctx)
+    check_inherited_ctx(ctx, P1)
 
 
 def live_params(repo, fi) -> set:
@@ -673,3 +674,115 @@ def check_elif_needs_if(ctx):
                           'holds orelse=[If]', x.lineno, sample={'function': fi.key, 'test': norm(x, 60)})
     if n < 1:
         raise AnalysisError('no lone-If (elif) decision found in slice_stmtlike (anchor vanished)')
+
+
+def check_inherited_ctx(ctx, P1):
+    """R1.9 — Python gives the elements of a Tuple / List and the value of a Starred the expression context of the container (`a, *b = c`:
+    Tuple, Starred and both Names are Store).  A put handler that replaces such a child has to take the context of the new node from the
+    tree (the old child's or the container's `.ctx`); a constant - the `ctx_cls` of the row's static descriptor, a literal Load - is right for
+    one of the positions only and leaves `Load` in an assignment target while the source is unchanged (tree differs from a re-parse).
+    Decided: on every call path from the handler registered for (Starred, value), (Tuple, elts), (List, elts) to the constructor of the new
+    node (`_make_exprlike_fst`), the context argument depends on a `.ctx` read."""
+    from ..consteval import FuncTok
+    from ..callgraph import arg_for_param
+    ctx.rule('R1.9', 'the put handlers of the positions that inherit the container\'s expression context (Starred.value, Tuple.elts, List.elts) '
+                     'derive the context of the new node from a `.ctx` read on the tree, on every path to the node constructor', 3)
+    maker = ctx.repo.find_funcs('fst_put_one', '_make_exprlike_fst')
+    if not maker:
+        raise AnalysisError('fst_put_one._make_exprlike_fst not found (anchor vanished)')
+    mk = maker[0]
+    mk_params = mk.params()
+    cparam = next((p for p in mk_params if 'ctx' in p), None)
+    if cparam is None:
+        raise AnalysisError('_make_exprlike_fst has no context parameter (anchor vanished)')
+    home = ctx.repo.mod(mk.module)
+    funcs = {q: fis[0] for q, fis in home.funcs.items() if '.' not in q and fis and not isinstance(fis[0].node, ast.Lambda)}
+    # functions that reach the constructor
+    calls = {q: [c for c in walk_no_nested(fi.node) if isinstance(c, ast.Call) and isinstance(c.func, ast.Name) and c.func.id in funcs]
+             for q, fi in funcs.items()}
+    reach = {mk.name}
+    changed = True
+    while changed:
+        changed = False
+        for q, cs in calls.items():
+            if q not in reach and any(c.func.id in reach for c in cs):
+                reach.add(q)
+                changed = True
+
+    def reads_ctx(e) -> bool:
+        for y in ast.walk(e):
+            if isinstance(y, ast.Attribute) and y.attr == 'ctx' and isinstance(y.ctx, ast.Load):
+                return True
+            if isinstance(y, ast.Call) and call_name(y) == 'getattr' and len(y.args) >= 2 and isinstance(y.args[1], ast.Constant) and y.args[1].value == 'ctx':
+                return True
+        return False
+
+    def derived(fi, e, env, depth=0) -> bool:
+        """Does expression `e` in `fi` depend on a `.ctx` read?  env: {param: (caller fi, argument expression, caller env)}."""
+        if e is None or depth > 6:
+            return False
+        if reads_ctx(e):
+            return True
+        ps = set(fi.params())
+        for y in ast.walk(e):
+            if not (isinstance(y, ast.Name) and isinstance(y.ctx, ast.Load)):
+                continue
+            bound = False
+            for x in walk_no_nested(fi.node):
+                v = None
+                if isinstance(x, ast.Assign) and any(isinstance(tg, ast.Name) and tg.id == y.id for tg in x.targets):
+                    v = x.value
+                elif isinstance(x, ast.NamedExpr) and x.target.id == y.id:
+                    v = x.value
+                if v is not None and v is not e and not any(z is e for z in ast.walk(v)):
+                    bound = True
+                    if derived(fi, v, env, depth + 1):
+                        return True
+                elif v is not None:
+                    bound = True
+                    if reads_ctx(v):
+                        return True
+            if not bound and y.id in ps and y.id in env:
+                cfi, ce, cenv = env[y.id]
+                if derived(cfi, ce, cenv, depth + 1):
+                    return True
+        return False
+
+    def paths(fi, env, seen):
+        """[(function, call, ok)] for every constructor call reachable from fi."""
+        out = []
+        for c in calls.get(fi.name, []):
+            g = funcs[c.func.id]
+            if g.name == mk.name:
+                a = arg_for_param(c, g, cparam, False)
+                out.append((fi, c, derived(fi, a, env)))
+            elif g.name in reach and g.name not in seen:
+                genv = {}
+                for p in g.params():
+                    a = arg_for_param(c, g, p, False)
+                    if a is not None:
+                        genv[p] = (fi, a, env)
+                out += paths(g, genv, seen | {g.name})
+        return out
+
+    n = 0
+    for (c, f), row in P1.items():
+        if not (hasattr(c, 'name') and (c.name, f) in (('Starred', 'value'), ('Tuple', 'elts'), ('List', 'elts'))):
+            continue
+        if not (isinstance(row, tuple) and len(row) == 3 and isinstance(row[1], FuncTok)):
+            continue
+        hs = ctx.repo.mod(row[1].module).func(row[1].qualname)
+        if not hs:
+            continue
+        n += 1
+        # the dispatcher passes the table's fixed arguments only: no parameter of the handler carries a context
+        ps = paths(hs[0], {}, {hs[0].name})
+        if not ps:
+            raise AnalysisError(f'{hs[0].key}: no path to {mk.name} found from the handler of ({c.name}, {f!r}) (anchor vanished)')
+        for fi, call, ok in ps:
+            ctx.check('R1.9', ok, fi.module, fi.qualname, f'({c.name}, {f!r}): {norm(call, 60)}',
+                      f'the new child of {c.name}.{f} gets its expression context from `{norm(arg_for_param(call, mk, cparam, False), 50)}`, which does not '
+                      f'depend on a `.ctx` read of the tree on this path from {hs[0].name}: in a Store / Del position (`*a, b = c`) the new node keeps '
+                      f'Load while the source re-parses to Store', call.lineno, sample={'row': f'{c.name}.{f}', 'handler': hs[0].key, 'constructor_call_in': fi.key})
+    if n < 3:
+        raise AnalysisError(f'only {n} of the rows (Starred, value), (Tuple, elts), (List, elts) resolve to a handler function')
